@@ -121,6 +121,22 @@ def gen_dyadic(ctx):
                     out.append(TCase(prob, [x0], [], [], P, True, rng.choice([abs(0.5 / L0 * x0), 0.0]), script, rng.random() < 0.7, tag="dyadic"))
     return out
 
+def gen_margin(ctx):
+    """the two rounding margins are separate knobs: runs whose quadratic-upper-bound violation 0.5 (1 - L) p^2 lies between
+    (1+|psi|) quadratic_upperbound_tolerance_factor and (1+|psi|) TR_tolerance_factor (psi = x^2/2, L_0 < 1, start near the stationary point)"""
+    rng = ctx.rng
+    out = []
+    for x0 in (2.0 ** -10, -2.0 ** -9, 2.0 ** -7):
+        for L0 in (0.5, 0.25):
+            for qub_tol, tr_tol in ((None, 1e-3), (0.0, 1e-3), (None, 1e-5), (1e-3, None), (1e-3, 0.0), (1e-5, 1e-3)):
+                for script in ([1], [3, 1]):
+                    prob = sl.Problem(1, 0, [[1.0]], [0.0], [0.0], [], [], [-INF], [INF], [], [])
+                    P = {"max_iter": 3, "crit": "ProjGradNorm", "L_0": L0, "Lgamma": 0.5, "init_radius": rng.choice([0.0, 0.25])}
+                    if qub_tol is not None: P["qub_tol"] = qub_tol
+                    if tr_tol is not None: P["tr_tol"] = tr_tol
+                    out.append(TCase(prob, [x0], [], [], P, True, 0.0, script, True, tag="margin"))
+    return out
+
 # ------------------------------------------------------------------ oracle on the implementation's records
 def oracle(cs, o):
     bad = []
@@ -204,7 +220,7 @@ def attach(ctx, scale=0.35, extra_oracle=None):
 
 def run_corr(ctx, prefix, scale, extra_oracle=None):
     if not build_driver(ctx, "solve"): return
-    cases = gen_dyadic(ctx) + gen_random(ctx, max(40, int(scale * ctx.n(300, 3000))))
+    cases = gen_dyadic(ctx) + gen_margin(ctx) + gen_random(ctx, max(40, int(scale * ctx.n(300, 3000))))
     outs = run_driver(ctx, "solve", "".join(c.rq.to_input() for c in cases), timeout=1500)
     if outs is None or len(outs) != len(cases):
         ctx.broke("correspondence", "drv_solve", "driver produced %s results for %d runs rc=%s %s" % (None if outs is None else len(outs), len(cases), getattr(ctx, "driver_rc", "?"), getattr(ctx, "driver_err", "")))
